@@ -72,6 +72,9 @@ class Profile(object):
         self.via_ref_floor_rate = 30
         self.ext_rate = 35
         self.choice_tags_ascending_rate = 30
+        self.bit_fixed_max = None
+        self.real_wc_always = False
+        self.default_kinds = None       # restrict DEFAULT to these base kinds
         for k, v in kw.items():
             if not hasattr(self, k):
                 raise AttributeError(k)
@@ -216,6 +219,18 @@ class _G(object):
                 t.rng = self.int_range(mod)
         elif k == 'ENUMERATED':
             self.enum(t, mod)
+        elif k == 'BIT STRING' and P.bit_fixed_max:
+            # C subset: fixed size, at most bit_fixed_max bits
+            n = self.pick([1, 7, 8, 9, 16, 17, 32, 33, 64]) if self.chance(60) else \
+                self.d(st.integers(1, P.bit_fixed_max))
+            n = min(n, P.bit_fixed_max)
+            t.size = Rng(n, n)
+            if P.named and self.chance(40):
+                names = self.d(st.lists(st.sampled_from(BIT_NAMES), min_size=1, max_size=3, unique=True))
+                poss = self.d(st.lists(st.integers(0, n - 1), min_size=len(names), max_size=len(names),
+                                       unique=True)) if n >= len(names) else []
+                if len(poss) == len(names):
+                    t.named_bits = list(zip(names, poss))
         elif k == 'BIT STRING':
             if P.named and self.chance(35):
                 names = self.d(st.lists(st.sampled_from(BIT_NAMES), min_size=1, max_size=4,
@@ -242,7 +257,7 @@ class _G(object):
                     and (P.size_with_alpha or t.size is None)):
                 t.alpha = self.alphabet(k)
         elif k == 'REAL':
-            if P.real_wc and self.chance(50):
+            if P.real_wc and (P.real_wc_always or self.chance(50)):
                 t.wc = self.pick([(-16777215, 16777215, 2, -149, 104),
                                   (-9007199254740991, 9007199254740991, 2, -1074, 971)])
         return t
@@ -455,6 +470,8 @@ class _G(object):
         if base is None:
             return
         k = base.kind
+        if self.p.default_kinds is not None and k not in self.p.default_kinds:
+            return
         through_ref = (t.kind == 'REF')
         if k == 'BOOLEAN':
             v = self.chance(50)
